@@ -320,7 +320,10 @@ def rule_kinds(w):
                     if e.rng.exact is not None and set(fk.norm(e.rng.exact).t) & {p["n"] for p in fn.params}:
                         und["data"] += 1      # caller-provided index (rank): precondition
                         continue
-                    ok = fk.within(e.rng, e.dom) if e.dom is not None else False
+                    if e.dom is None:
+                        ck.incomplete("E2.patch-kinds", "%s: adjactor of %s not nameable" % (name, render(e.node)))
+                        continue
+                    ok = fk.within(e.rng, e.dom)
                     key = "%s/%s.%s(%s)" % (name, e.obj, e.node.get("n"), e.node_canon)
                     detail = "%s.%s(%s): node kind %r, adjactor domain [0,%r)" % (e.obj, e.node.get("n"), render(e.node_expr), e.rng, e.dom)
                 elif e.kind == "adjloop":
@@ -357,6 +360,9 @@ def rule_monotone(w):
             ck.incomplete("E2.monotone-push", "anchor %s not instantiated" % fre)
         for fn in fns:
             fk = w.fk(fn)
+            if fk.unknown:
+                ck.incomplete("E2.monotone-push", "%s: %s" % (short(fn), "; ".join(x[0] for x in fk.unknown)))
+                continue
             pushes = [e for e in fk.events if e.kind == "call" and e.name in ("push_back", "emplace_back", "insert") and e.obj == key]
             problems = []
             if len(pushes) != 1:
@@ -434,6 +440,7 @@ def rule_parti(w):
         sets = [e for e in fk.events if e.kind == "field" and e.key == "this._success" and e.seq > 0 and e.node.get("k") == "Assign"]
         init = [e for e in fk.events if e.kind == "member-init" and e.key == "this._success"]
         problems = []
+        unclear = []
         if not (init and render(strip(init[0].init)) == "false"):
             problems.append("_success is not initialised to false")
         if len(sets) != 1 or render(strip(sets[0].node["rhs"])) != "true":
@@ -468,7 +475,15 @@ def rule_parti(w):
                     if v is not None:
                         okg, cnt = True, v
             if not okg:
-                problems.append("_success = true is not control dependent on `count == _num_ranks`")
+                # an early exit / enclosing condition in another spelling is not a violation but a construct this rule does not read
+                other = [e for e in fk.events if e.kind == "if" and e.seq < s.seq and not e.frames and
+                         [r for r in fk.events if r.kind == "return" and r.frames and r.frames[0].node is e.node]]
+                other += [f for f in s.frames if f.kind == "if"]
+                if other or fk.unknown:
+                    unclear.append("_success = true is guarded by %s, which is not of the form count ==/!= _num_ranks" % ", ".join(
+                        render(getattr(o, "cond", None) or o.node.get("c")) for o in other) if other else "unmodelled constructs")
+                else:
+                    problems.append("_success = true is not control dependent on `count == _num_ranks`")
             else:
                 # the compared count starts at the element count and is only multiplied by the refinement factor
                 muts = [e for e in fk.events if e.kind == "scalar" and e.name == cnt]
@@ -477,6 +492,9 @@ def rule_parti(w):
                     fk.norm(fk.size(decl[0]["init"])) == fk.norm(fk.fields.get("this._num_elems", Lin.atom("this._num_elems"))) and all(e.op == "*=" for e in muts)
                 if not okc:
                     problems.append("the compared count is not the element count multiplied up by the refinement factor")
+        if unclear and not problems:
+            ck.incomplete("E7.success-guard", "%s: %s" % (name, "; ".join(unclear)))
+            continue
         ck.ob("E7.success-guard", name, not problems, "; ".join(problems) if problems else
               "_success(false) initially; set to true only after `count != _num_ranks -> return`, count = #elements * factor^k", fn.file, sets[0].node.get("l") if sets else fn.line)
     # ---- PartiIterative ----------------------------------------------------------------------------------------
@@ -499,16 +517,23 @@ def rule_parti(w):
             br = [f.branch for f in e.frames if f.kind == "if"]
             by.setdefault(br[-1] if br else "?", []).append(e)
         problems = []
+        unclear = [x[0] for x in fk.unknown]
         if set(by) != {"then", "else"} or len(by["then"]) != len(by["else"]) or len(by["then"]) != 2:
             problems.append("broadcasts are not paired in the two branches (%s)" % {k: len(v) for k, v in by.items()})
         else:
             for a, b in zip(by["then"], by["else"]):
                 ca, cb = fk.size(a.node["a"][1]), fk.size(b.node["a"][1])
-                if ca is None or cb is None or fk.norm(ca) != fk.norm(cb):
+                if ca is None or cb is None:
+                    unclear.append("broadcast count %s / %s is not a size expression" % (render(a.node["a"][1]), render(b.node["a"][1])))
+                    continue
+                if fk.norm(ca) != fk.norm(cb):
                     problems.append("sender broadcasts %s entries, receiver expects %s" % (render(a.node["a"][1]), render(b.node["a"][1])))
                 for e, cnt in ((a, ca), (b, cb)):
                     arr = fk.array_of(e.node["a"][0])
-                    if arr is None or arr.extent is None or cnt is None or not fk.within(Rng(0, cnt), fk.norm(arr.extent)):
+                    if arr is None or arr.extent is None:
+                        unclear.append("extent of the broadcast buffer %s not known" % render(e.node["a"][0]))
+                        continue
+                    if not fk.within(Rng(0, cnt), fk.norm(arr.extent)):
                         problems.append("buffer %s (extent %r) is shorter than the broadcast count %r" % (render(e.node["a"][0]), fk.norm(arr.extent) if arr is not None and arr.extent is not None else None, cnt))
             # graph dimensions in both branches
             gs = [e for e in fk.events if e.kind == "construct" and e.obj == "graph"]
@@ -521,6 +546,9 @@ def rule_parti(w):
                 problems.append("the two branches construct graphs of different dimensions %s" % dims)
             elif dims[0] != (repr(fk.norm(Lin.atom("this._num_patches"))), repr(fk.norm(Lin.atom("this._num_elems"))), repr(fk.norm(Lin.atom("this._num_elems")))):
                 problems.append("graph dimensions %s are not (patches, elements, elements)" % (dims[0],))
+        if unclear and not problems:
+            ck.incomplete("E12.bcast-agree", "%s: %s" % (name, "; ".join(unclear)))
+            continue
         ck.ob("E12.bcast-agree", name, not problems, "; ".join(problems) if problems else
               "both branches broadcast (_num_patches+1) offsets and _num_elems indices into arrays of sufficient extent and build Graph(_num_patches, _num_elems, _num_elems)", fn.file, fn.line)
     fns = w.find(r"Intern::PartiIterativeIndividual<.*>::PartiIterativeIndividual$")
@@ -536,6 +564,10 @@ def rule_parti(w):
         a1 = any(a is not None and ((a[0] == ">" and a[1] == np_ and a[2] == Lin.const(0)) or (a[0] == ">=" and a[1] == np_ and a[2] == Lin.const(1))
                                     or (a[0] == "!=" and a[1] == np_ and a[2] == Lin.const(0))) for a in asserts)
         a2 = any(a is not None and ((a[0] == ">=" and a[1] == ne_ and a[2] == np_) or (a[0] == "<=" and a[1] == np_ and a[2] == ne_)) for a in asserts)
+        opaque = [e for e in fk.events if e.kind == "assert" and not e.frames and e.seq < first_loop and cmp_of(fk, e.cond) is None]
+        if (not a1 or not a2) and (opaque or fk.unknown):
+            ck.incomplete("E7.parti-precond", "%s: assertions %s are not comparisons of size expressions" % (name, ", ".join(render(e.cond) for e in opaque) or "(unmodelled constructs)"))
+            continue
         ck.ob("E7.parti-precond", name + "/patches>0", a1, "XASSERT(_num_patches > 0) precedes the search for cluster centres" if a1 else "no check that at least one patch is requested", fn.file, fn.line)
         ck.ob("E7.parti-precond", name + "/elems>=patches", a2, "XASSERT(_num_elems >= _num_patches) precedes the search for _num_patches distinct centre cells "
               "(the search loop cannot terminate otherwise; every patch owns its centre cell, so no patch is empty)" if a2 else
